@@ -89,6 +89,10 @@ def py_oracle(path):
         if ev["k"] in ("crash", "restart"):
             pending.pop(n, None)
             snap_pend.pop(n, None)
+            if ev["k"] == "restart" and not r.get("res"):
+                handed.pop(n, None)
+                app_last.pop(n, None)
+                was_leader.pop(n, None)
         if ev["k"] == "ready" and n in snap_pend and "phs" in r.get("sub", "").split(","):
             # the membership of a persisted snapshot is what a restart starts from
             sn = snap_pend.pop(n)
@@ -97,10 +101,6 @@ def py_oracle(path):
                 if ns["id"] == n and d and d.get("si") == sn["i"]:
                     if (d.get("svoters") or []) != (sn.get("voters") or []) or (d.get("slearners") or []) != (sn.get("learners") or []):
                         out.append(("C01", "snapshot-membership-not-persisted", seq, "node %s snapshot %s" % (n, sn["i"])))
-            if ev["k"] == "restart" and not r.get("res"):
-                handed.pop(n, None)
-                app_last.pop(n, None)
-                was_leader.pop(n, None)
         if ev["k"] == "ready" and r.get("sub", "").split(",")[0:1] and "publish" in r.get("sub", "").split(",") and n in pending:
             rd = pending.pop(n)
             if rd.get("snap"):
